@@ -53,6 +53,15 @@ sub helper_b {
   }
   call helper_a("zz", 3);
 }
+sub helper_re(REGEX var.pat) {
+  if (req.http.H1 ~ var.pat) {
+    set req.http.Helper = "re-matched";
+  }
+}
+sub fn_t(TIME var.when) STRING {
+  set var.when += 1h;
+  return "at " var.when + 5m " done";
+}
 sub fn_s(STRING var.p) STRING {
   declare local var.s2 STRING;
   set var.s2 = "fn-local";
@@ -70,7 +79,7 @@ sub fn_i(INTEGER var.n) INTEGER {
 
 func init() {
 	register("C13",
-		"straight-line and branching core-language programs over a pool of locals of every type and req headers, plus calls of user subroutines with typed parameters (procedural and functional) that assign to their parameters and own locals and run regex matches, and side-effect-free built-ins; the interpreter is driven statement by statement and the rendering/type/set-ness of every pooled name and re.group.0-3 is snapshotted before and after each statement; oracle (frame conditions): a statement changes only the names it assigns (re.group.* only if it contains a regex match), a call leaves caller locals, capture groups and argument variables unchanged; kind objects: during a real request (miss, pass and error paths) set/add/unset of header A or B on one of req/bereq/beresp/obj/resp leaves the same-named headers of the other objects unchanged. non-trivial: the statement reads >=1 pooled variable other than its target through an operator or call; distinct by program",
+		"straight-line and branching core-language programs over a pool of locals of every type and req headers, plus calls of user subroutines with typed parameters (procedural and functional) that assign to their parameters and own locals and run regex matches, and side-effect-free built-ins; the interpreter is driven statement by statement and the rendering/type/set-ness of every pooled name and re.group.0-3 is snapshotted before and after each statement; oracle (frame conditions): a statement changes only the names it assigns (re.group.* only if it contains a regex match), a call leaves caller locals, capture groups and argument variables unchanged; TIME, BACKEND and REGEX locals, req.backend and the declared backend identifiers are part of the snapshot and are exercised by time arithmetic inside concatenations, backend assignments and REGEX assignments/parameters; kind objects: during a real request (miss, pass and error paths) set/add/unset of header A or B on one of req/bereq/beresp/obj/resp leaves the same-named headers of the other objects unchanged. non-trivial: the statement reads >=1 pooled variable other than its target through an operator or call; distinct by program",
 		genC13, checkC13, 10*time.Second)
 }
 
@@ -170,8 +179,41 @@ func genC13(t *rapid.T) any {
 		s := s
 		add(&s)
 	}
+	// locals of the types the core language does not model: TIME, BACKEND, REGEX (frame conditions only)
+	c.Steps = append(c.Steps, C13Step{Kind: "declare-extra", MayWrite: c13Extra,
+		Src: "declare local var.t1 TIME;\ndeclare local var.t2 TIME;\ndeclare local var.be1 BACKEND;\ndeclare local var.re1 REGEX;\ndeclare local var.re2 REGEX;\n" +
+			"set var.t1 = std.integer2time(1000);\nset var.t2 = std.integer2time(2000);\nset var.be1 = b;\n"})
 	n := rapid.IntRange(1, pick(15, 30)).Draw(t, "nsteps")
 	for i := 0; i < n; i++ {
+		if rapid.IntRange(0, 5).Draw(t, "extra") == 0 {
+			tv := pickS(g, []string{"var.t1", "var.t2"}, "tv")
+			ov := map[string]string{"var.t1": "var.t2", "var.t2": "var.t1"}[tv]
+			rv := pickS(g, []string{"var.re1", "var.re2"}, "rv")
+			st := pickS(g, pool.Strs, "xs")
+			type xs struct {
+				src string
+				w   []string
+			}
+			x := rapid.SampledFrom([]xs{
+				{fmt.Sprintf("set %s = \"e=\" %s + 5m \";\";\n", st, tv), []string{st}},
+				{fmt.Sprintf("set %s = %s + 10s \"|\" %s + 1h \"|\";\n", st, tv, ov), []string{st}},
+				{fmt.Sprintf("set req.http.H1 = \"t=\" %s + 30s \".\";\n", tv), []string{"req.http.H1"}},
+				{fmt.Sprintf("set %s = %s + 5m;\n", tv, ov), []string{tv}},
+				{fmt.Sprintf("set %s += 1s;\n", tv), []string{tv}},
+				{fmt.Sprintf("set %s = if(%s > %s, \"later\", \"earlier\");\n", st, tv, ov), []string{st}},
+				{"set req.backend = b2;\n", []string{"req.backend"}},
+				{"set req.backend = b;\n", []string{"req.backend"}},
+				{"set req.backend = var.be1;\n", []string{"req.backend"}},
+				{"set var.be1 = b2;\n", []string{"var.be1"}},
+				{"set var.be1 = req.backend;\n", []string{"var.be1"}},
+				{fmt.Sprintf("set %s = \"^a(b+)\";\n", rv), []string{rv}},
+				{fmt.Sprintf("set %s = \"x$\";\n", rv), []string{rv}},
+				{"call helper_re(\"^lit\");\n", []string{"req.http.Helper"}},
+				{fmt.Sprintf("set %s = fn_t(%s);\n", st, tv), []string{st}},
+			}).Draw(t, "extrastep")
+			c.Steps = append(c.Steps, C13Step{Src: x.src, Kind: "extra-types", MayWrite: x.w, Reads: true, Match: strings.Contains(x.src, "helper_re")})
+			continue
+		}
 		switch rapid.IntRange(0, 9).Draw(t, "special") {
 		case 0: // procedural call with arguments
 			sa := pickS(g, pool.Strs[:2], "argS")
@@ -211,7 +253,10 @@ func genC13(t *rapid.T) any {
 
 type snap map[string]string
 
-var c13Names = append(append([]string{}, pool.all()...), "req.http.Helper", "re.group.0", "re.group.1", "re.group.2", "re.group.3")
+var c13Extra = []string{"var.t1", "var.t2", "var.be1", "var.re1", "var.re2"}
+
+// pooled names + the extra locals + req.backend and the declared backends read through their identifiers
+var c13Names = append(append(append([]string{}, pool.all()...), "req.http.Helper", "re.group.0", "re.group.1", "re.group.2", "re.group.3", "req.backend", "b", "b2"), c13Extra...)
 
 func takeSnap(ip *interpreter.Interpreter) snap {
 	s := snap{}
@@ -240,7 +285,7 @@ func checkC13(raw json.RawMessage) iso.Result {
 		return checkC13Objects(c)
 	}
 	col := iso.NewCollector("C13")
-	vcl := "backend b { .host = \"127.0.0.1\"; .port = \"1\"; }\n" + c13Subs + "sub vcl_recv { }\n"
+	vcl := "backend b { .host = \"127.0.0.1\"; .port = \"1\"; }\nbackend b2 { .host = \"127.0.0.1\"; .port = \"2\"; }\n" + c13Subs + "sub vcl_recv { }\n"
 	ip, _, err := newTestInterp(vcl)
 	if err != nil {
 		col.Failf("harness: cannot initialise interpreter: %v", err)
